@@ -613,16 +613,21 @@ class MinimizerScipyOptimize(MinimizerBase):
         if not self.did_fit:
             raise RuntimeError("Need to perform a fit before calling profile()!")
         self._save_state()
-        _par_id = self._par_names.index(parameter_name)
-        _y_offset = self.function_value if subtract_min else 0
-        _bound_low, _bound_high, _arrow_specs = self._get_profile_bound(parameter_name, low, high, sigma, cl, arrows)
-        self._load_state()
-        _par = np.linspace(start=_bound_low, stop=_bound_high, num=size, endpoint=True)
+        try:
+            _par_id = self._par_names.index(parameter_name)
+            _y_offset = self.function_value if subtract_min else 0
+            _bound_low, _bound_high, _arrow_specs = self._get_profile_bound(parameter_name, low, high, sigma, cl, arrows)
+            self._load_state()
+            _par = np.linspace(start=_bound_low, stop=_bound_high, num=size, endpoint=True)
 
-        _y = np.zeros(size)
-        self._x0 = self._par_val
-        for i in range(size):
-            _y[i] = self._calc_fun_with_constraints([{"type": "eq", "fun": lambda x: x[_par_id] - _par[i]}], continuous_x0=True)
+            _y = np.zeros(size)
+            self._x0 = self._par_val
+            for i in range(size):
+                _y[i] = self._calc_fun_with_constraints([{"type": "eq", "fun": lambda x: x[_par_id] - _par[i]}], continuous_x0=True)
+        except BaseException:
+            # do not leave the fit at an excursion point if the profile cannot be computed
+            self._load_state()
+            raise
         self._load_state()
         return np.asarray([_par, _y - _y_offset]), _arrow_specs
 
